@@ -59,7 +59,7 @@ func PlayMode(beh M, rng *rand.Rand, proj *Projection, mode int) ([]M, error) {
 		cfg["_tlsfield"] = rng.Intn(3)
 	}
 	if S(cfg, "tls") == "cert" {
-		cfg["_tlsvar"] = rng.Intn(4)
+		cfg["_tlsvar"] = rng.Intn(6)
 	}
 	x, err := NewExec(cfg)
 	if err != nil {
@@ -259,7 +259,7 @@ func PlayMode(beh M, rng *rand.Rand, proj *Projection, mode int) ([]M, error) {
 	}
 	x.Shutdown()
 	// the user's global parameter map after the run (must be untouched)
-	x.Log.Append(mem.Ev{"k": "x-global", "conn": conn.ID, "m": paramsObj(x.Global), "tlsok": x.TLSIntact()})
+	x.Log.Append(mem.Ev{"k": "x-global", "conn": conn.ID, "m": paramsObj(x.Global), "tlsok": x.ConfigIntact()})
 	// everything the callbacks retained still has its content (C18)
 	x.Log.Append(mem.Ev{"k": "x-intact", "conn": conn.ID, "ok": x.Intact()})
 	plainMu.Lock()
@@ -296,7 +296,7 @@ func playStream(beh M, rng *rand.Rand, proj *Projection, mode int) ([]M, error) 
 		cfg["_tlsfield"] = rng.Intn(3)
 	}
 	if S(cfg, "tls") == "cert" {
-		cfg["_tlsvar"] = rng.Intn(4)
+		cfg["_tlsvar"] = rng.Intn(6)
 	}
 	x, err := NewExec(cfg)
 	if err != nil {
@@ -376,7 +376,7 @@ func playStream(beh M, rng *rand.Rand, proj *Projection, mode int) ([]M, error) 
 		}
 	}
 	x.Shutdown()
-	x.Log.Append(mem.Ev{"k": "x-global", "conn": conn.ID, "m": paramsObj(x.Global), "tlsok": x.TLSIntact()})
+	x.Log.Append(mem.Ev{"k": "x-global", "conn": conn.ID, "m": paramsObj(x.Global), "tlsok": x.ConfigIntact()})
 	x.Log.Append(mem.Ev{"k": "x-intact", "conn": conn.ID, "ok": x.Intact()})
 	p := &Projector{Conn: conn.ID, Proj: proj, SkipPre: proj != nil && proj.SkipPreamble}
 	for _, e := range x.Log.Events() {
